@@ -9,7 +9,7 @@ use super::*;
 use crate::ctx::{hx, Ctx, Tier};
 use crate::sodium as na;
 
-const MEMS_KIB: [usize; 22] = [8, 9, 10, 11, 12, 13, 15, 16, 17, 31, 33, 37, 64, 100, 255, 516, 600, 1000, 1024, 1025, 2044, 4099];
+const MEMS_KIB: [usize; 24] = [8, 9, 10, 11, 12, 13, 15, 16, 17, 31, 33, 37, 64, 100, 255, 516, 600, 1000, 1024, 1025, 2044, 4099, 16385, 65537];
 const OUT_SPECIAL: [usize; 7] = [255, 256, 257, 1023, 1024, 1025, 1100];
 
 fn alg(id: bool) -> PasswordHashAlgorithm {
@@ -115,6 +115,9 @@ pub fn run(cx: &mut Ctx) {
                     if cx.tier != Tier::Thorough && m > 1100 && (t > 2 || oi == 1) {
                         continue; // the multi-MiB sizes are visited with 1-2 passes in the quick tier
                     }
+                    if m > 5000 && (cx.tier != Tier::Thorough || t > 2 || oi == 1) {
+                        continue; // 16 MiB / 64 MiB: thorough tier only, 1-2 passes
+                    }
                     let mut rng = cx.rng.fork(idx);
                     let pwlen = rng.range(0, 24);
                     let pw = rng.bytes(pwlen);
@@ -127,7 +130,7 @@ pub fn run(cx: &mut Ctx) {
         }
     }
     // (D) seeded random parameter sets
-    let nrand = cx.tier.pick(4usize, 400, 20_000);
+    let nrand = cx.tier.pick(4usize, 1200, 150_000);
     for i in 0..nrand {
         idx += 1;
         if !cx.mine(idx) {
